@@ -9,6 +9,7 @@ import (
 	"os"
 	"runtime"
 
+	"github.com/Masterminds/semver/v3"
 	"github.com/creativeprojects/go-selfupdate"
 	"github.com/rs/zerolog/log"
 )
@@ -56,7 +57,11 @@ func Updater(version string, executablePath string) (string, error) {
 		return emptyVersion, err
 	}
 
-	if latest.LessOrEqual(version) {
+	// A development build may not carry a comparable version (e.g. "dev"):
+	// it counts as older than any release.
+	if _, err := semver.NewVersion(version); err != nil {
+		logger.Info().Msgf("Your version %s is not a semantic version, assuming it is older than %s", version, latest.Version())
+	} else if latest.LessOrEqual(version) {
 		logger.Info().Msgf("You have the latest version installed, %s", version)
 		return version, nil
 	}
